@@ -140,6 +140,33 @@ pub fn broadcast_mix_program(rng: &mut Rng, st: ScalarType, variant: usize) -> P
     Prog { ctx, g, input_types: vec![ta, tb], attempts: vec![] }
 }
 
+/// both operand orders of a non-commutative product on the same two nodes (a de-duplication or
+/// canonicalisation that identifies them changes the result), and of commutative ones as control
+pub fn commutator_program(rng: &mut Rng, st: ScalarType, variant: usize) -> Prog {
+    let ctx = create_context().unwrap();
+    let g = ctx.create_graph().unwrap();
+    let n = 2 + rng.below(2);
+    let (ta, tb) = match variant % 6 {
+        4 => (array_type(vec![n, n], st), array_type(vec![n], st)),
+        _ => (array_type(vec![n, n], st), array_type(vec![n, n], st)),
+    };
+    let a = g.input(ta.clone()).unwrap();
+    let b = g.input(tb.clone()).unwrap();
+    let o = match variant % 6 {
+        0 => a.dot(b.clone()).unwrap().subtract(b.dot(a).unwrap()).unwrap(),
+        1 => a.matmul(b.clone()).unwrap().subtract(b.matmul(a).unwrap()).unwrap(),
+        2 => a.gemm(b.clone(), false, true).unwrap().subtract(b.gemm(a, false, true).unwrap()).unwrap(),
+        3 => a.multiply(b.clone()).unwrap().add(b.multiply(a).unwrap()).unwrap(),
+        4 => a.dot(b.clone()).unwrap().subtract(b.dot(a).unwrap()).unwrap(),
+        _ => a.subtract(b.clone()).unwrap().multiply(b.subtract(a).unwrap()).unwrap(),
+    };
+    g.set_output_node(o).unwrap();
+    g.finalize().unwrap();
+    ctx.set_main_graph(g.clone()).unwrap();
+    ctx.finalize().unwrap();
+    Prog { ctx, g, input_types: vec![ta, tb], attempts: vec![] }
+}
+
 fn ring_obligation(id: usize, p: &Prog, c: &Compiled, owners: &[IOStatus], outs: &[IOStatus]) -> String {
     // quantified ring variables and the two input lists
     let mut vars = vec![];
@@ -201,7 +228,7 @@ pub fn run(tier: &str, seed: u64, out: &mut Out) {
         let st = if i % 5 == 4 { BIT } else { *rng.pick(&int_sts) };
         let p = ring_program(&mut rng, st);
         let owners = random_owners(p.input_types.len(), &mut rng);
-        let outs = all_outs[i % 8].clone();
+        let outs = all_outs[i % all_outs.len()].clone();
         let (mname, mode) = modes[i % 3].clone();
         let its = p.input_types.clone();
         if let Some(c) = end_to_end(&p, &owners, &outs, mname, mode, &mut rng, out, 2, &move |r: &mut Rng| its.iter().map(|t| gen_value(t, r)).collect(), "ring") {
@@ -221,7 +248,7 @@ pub fn run(tier: &str, seed: u64, out: &mut Out) {
         let (ni, no) = (1 + rng.below(3) as usize, 1 + rng.below(7) as usize);
         let p = gen_mpc_program(&mut rng, &ops, ni, no, &[st]);
         let owners = random_owners(ni, &mut rng);
-        let outs = all_outs[i % 8].clone();
+        let outs = all_outs[i % all_outs.len()].clone();
         let (mname, mode) = modes[i % 3].clone();
         let its = p.input_types.clone();
         end_to_end(&p, &owners, &outs, mname, mode, &mut rng, out, 2, &move |r: &mut Rng| its.iter().map(|t| gen_value(t, r)).collect(), if wide { "wide" } else { "fragment" });
@@ -235,11 +262,23 @@ pub fn run(tier: &str, seed: u64, out: &mut Out) {
         // mixed vectors first: exactly one public operand
         let mixed = [vec![IOStatus::Party(0), IOStatus::Public], vec![IOStatus::Public, IOStatus::Party(1)], vec![IOStatus::Shared, IOStatus::Public], vec![IOStatus::Public, IOStatus::Shared], vec![IOStatus::Party(2), IOStatus::Party(0)]];
         let owners = if tier == "search" { all_owner2[i % 25].clone() } else { mixed[(i / 90 + i) % 5].clone() };
-        let outs = all_outs[(i * 3 + 1) % 8].clone();
+        let outs = all_outs[(i * 3 + 1) % all_outs.len()].clone();
         let (mname, mode) = modes[i % 3].clone();
         let its = p.input_types.clone();
         out.stat("stream:broadcast-mix");
         end_to_end(&p, &owners, &outs, mname, mode, &mut rng, out, 1, &move |r: &mut Rng| its.iter().map(|t| gen_value(t, r)).collect(), "broadcast-mix");
+    }
+    // (1) both operand orders of the same product
+    let n_comm = match tier { "thorough" => 60, "search" => 240, _ => 12 };
+    for i in 0..n_comm {
+        let st = *rng.pick(&int_sts);
+        let p = commutator_program(&mut rng, st, i);
+        let owners = [vec![IOStatus::Party(0), IOStatus::Party(1)], vec![IOStatus::Public, IOStatus::Party(2)], vec![IOStatus::Shared, IOStatus::Party(0)], vec![IOStatus::Public, IOStatus::Public]][(i / 6) % 4].clone();
+        let outs = all_outs[(i * 5 + 1) % all_outs.len()].clone();
+        let (mname, mode) = modes[i % 3].clone();
+        let its = p.input_types.clone();
+        out.stat("stream:commutator");
+        end_to_end(&p, &owners, &outs, mname, mode, &mut rng, out, 1, &move |r: &mut Rng| its.iter().map(|t| gen_value(t, r)).collect(), "commutator");
     }
     // deep model of the compiler: literal tie
     crate::c01deep::run(tier, &mut rng, out);
